@@ -249,14 +249,14 @@ def fmin_case(T, cname, x0, tol, maxiter):
 
 
 # ===================================================================== Powell
-def pw_case(T, cname, x0, tol, maxiter):
+def pw_case(T, cname, x0, tol, maxiter, direc=None, dname=None):
     from mystic.solvers import PowellDirectionalSolver
     from mystic.termination import NormalizedChangeOverGeneration as NCOG
     cost = COSTS[cname]
     out = []
     n = len(x0)
     try:
-        recs = list(rpw.powell(cost, list(x0), tol, tol, maxiter, None))
+        recs = list(rpw.powell(cost, list(x0), tol, tol, maxiter, None, direc=None if direc is None else np.array(direc, dtype=float)))
         ref_exc = None
     except Exception as e:   # the shared Brent may give up on a plateau: then both must
         recs, ref_exc = [], type(e).__name__
@@ -270,7 +270,7 @@ def pw_case(T, cname, x0, tol, maxiter):
         if ref_exc is not None:
             try:
                 for _ in range(100000):
-                    if s.Step(xtol=tol):
+                    if s.Step(xtol=tol, **({'direc': _fresh(direc)} if direc is not None and _ == 0 else {})):
                         break
                 got = None
             except Exception as e:
@@ -292,10 +292,11 @@ def pw_case(T, cname, x0, tol, maxiter):
                     if r['fe'] == recs_f0(recs, r['iter']):
                         T.hist('powell_tie', 'fE==f0')
                 continue
-            msg = s.Step(xtol=tol)
+            first = not s._stepmon._x
+            msg = s.Step(xtol=tol, **({'direc': _fresh(direc)} if direc is not None and first else {}))
             if T is not None:
                 T.count('transitions')
-                T.state(('pw', kind, tuple(_fl(r['x'])), r['fval']))
+                T.state(('pw', kind, tuple(_fl(r['x'])), r['fval'], dname))
             bad = []
             a = _same(s.population[0], r['x'])
             b = _same([s.popEnergy[0]], [r['fval']])
@@ -318,7 +319,7 @@ def pw_case(T, cname, x0, tol, maxiter):
                     bad.append('generations %d, reference iteration %d' % (s.generations, r['iter']))
                 if bool(msg) != bool(r['stop']):
                     bad.append('Step returned %r, reference stop=%r' % (msg, r['stop']))
-                want = prev['direc'] if prev is not None else np.eye(n)
+                want = prev['direc'] if prev is not None else (np.eye(n) if direc is None else np.array(direc, dtype=float))
                 if _same(np.asarray(s._direc, dtype=float), want) is None:
                     bad.append('direction set %r, reference %r' % (np.asarray(s._direc).tolist(), want.tolist()))
                 if prev is not None:
@@ -341,10 +342,13 @@ def pw_case(T, cname, x0, tol, maxiter):
                 break
             if bad:
                 br = prev['branch'] if prev is not None else 'first'
-                out.append(({'solver': 'Powell', 'clause': 'step_vs_reference', 'branch': br},
-                            'PowellDirectionalSolver on %s from %r (xtol=ftol=%g, maxiter=%r), iteration %s '
+                sig = {'solver': 'Powell', 'clause': 'step_vs_reference', 'branch': br}
+                if dname is not None:
+                    sig['direc'] = dname
+                out.append((sig,
+                            'PowellDirectionalSolver on %s from %r (xtol=ftol=%g, maxiter=%r, direc=%s), iteration %s '
                             '[extrapolation branch before it: %s]: %s'
-                            % (cname, x0, tol, maxiter, r.get('iter', 0), br, '; '.join(bad))))
+                            % (cname, x0, tol, maxiter, dname, r.get('iter', 0), br, '; '.join(bad))))
                 break
     return out
 
@@ -356,7 +360,7 @@ def recs_f0(recs, it):
     return None
 
 
-def fminpow_case(T, cname, x0, tol, maxiter):
+def fminpow_case(T, cname, x0, tol, maxiter, direc=None, dname=None):
     import mystic.scipy_optimize as mso
     import mystic._scipy060optimize as old
     cost = COSTS[cname]
@@ -369,9 +373,9 @@ def fminpow_case(T, cname, x0, tol, maxiter):
             return None, type(e).__name__
     with env.owned_random(env.SeededRandom(0)):
         got, ge = call(lambda: mso.fmin_powell(cost, list(x0), xtol=tol, ftol=tol, maxiter=maxiter,
-                                               full_output=1, disp=0))
+                                               full_output=1, disp=0, direc=_fresh(direc)))
     ref, re_ = call(lambda: old.fmin_powell(cost, list(x0), xtol=tol, ftol=tol, maxiter=maxiter,
-                                            full_output=1, disp=0))
+                                            full_output=1, disp=0, direc=None if direc is None else np.array(direc, dtype=float)))
     if T is not None:
         T.count('transitions')
     bad = []
@@ -392,15 +396,51 @@ def fminpow_case(T, cname, x0, tol, maxiter):
             bad.append('direc %r vs %r' % (np.asarray(got[5]).tolist(), np.asarray(ref[2]).tolist()))
         if T is not None:
             T.hist('fmin_powell_warnflag', int(got[4]))
-            T.state(('fminpow', cname, tuple(x0), tol, maxiter, tuple(_fl(got[0])), int(got[2]), int(got[3])))
+            T.state(('fminpow', cname, tuple(x0), tol, maxiter, tuple(_fl(got[0])), int(got[2]), int(got[3]), dname))
     if bad and not (ge or re_) and int(ref[3]) == 1 and int(ref[5]) == 0 and int(got[2]) >= 2:
         # same reading as in pw_case: the documented gtol=2 stop rule, not a step of the method
         if T is not None:
             T.hist('powell_info', 'fmin_powell_runs_past_iteration_1_where_reference_converged')
     elif bad:
-        out.append(({'solver': 'fmin_powell', 'clause': 'wrapper_vs_reference', 'reference': '_scipy060optimize.fmin_powell'},
-                    'mystic fmin_powell vs vendored scipy-0.6 fmin_powell on %s from %r (xtol=ftol=%g, maxiter=%r): %s'
-                    % (cname, x0, tol, maxiter, '; '.join(bad))))
+        sig = {'solver': 'fmin_powell', 'clause': 'wrapper_vs_reference', 'reference': '_scipy060optimize.fmin_powell'}
+        if dname is not None:
+            sig['direc'] = dname
+        out.append((sig,
+                    'mystic fmin_powell vs vendored scipy-0.6 fmin_powell on %s from %r (xtol=ftol=%g, maxiter=%r, direc=%s): %s'
+                    % (cname, x0, tol, maxiter, dname, '; '.join(bad))))
+    return out
+
+
+def _fresh(direc):
+    """the caller's direction set, built anew for every call (the solver may work in the array it is given)"""
+    if direc is None:
+        return None
+    if isinstance(direc, np.ndarray):
+        return direc.copy()
+    return [list(r) for r in direc] if isinstance(direc, list) else tuple(tuple(r) for r in direc)
+
+
+def direc_variants(n):
+    """user-supplied initial direction sets, by the type they are written in"""
+    eye = [[1 if i == j else 0 for j in range(n)] for i in range(n)]
+    out = [('int_lists_identity', eye),
+           ('int_tuples_reversed', tuple(tuple(r) for r in eye[::-1])),
+           ('int_array_signs', np.array([[(1 if j <= i else 0) * (-1 if (i + j) % 2 else 1) for j in range(n)] for i in range(n)], dtype=int)),
+           ('float_array_skew', np.array([[1.0 if i == j else (0.5 if j == i + 1 else 0.0) for j in range(n)] for i in range(n)]))]
+    return out
+
+
+def pw_direc_case(T, cname, x0, tol, maxiter):
+    out = []
+    for dname, d in direc_variants(len(x0)):
+        out += pw_case(T, cname, x0, tol, maxiter, d, dname)
+    return out
+
+
+def fminpow_direc_case(T, cname, x0, tol, maxiter):
+    out = []
+    for dname, d in direc_variants(len(x0)):
+        out += fminpow_case(T, cname, x0, tol, maxiter, d, dname)
     return out
 
 
@@ -433,7 +473,8 @@ def _guarded(fn, what):
 
 
 LOCAL = {'nm': _guarded(nm_case, 'nm'), 'nm_adaptive': _guarded(nm_adaptive_case, 'nm_adaptive'), 'fmin': _guarded(fmin_case, 'fmin'),
-         'powell': _guarded(pw_case, 'powell'), 'fmin_powell': _guarded(fminpow_case, 'fmin_powell')}
+         'powell': _guarded(pw_case, 'powell'), 'fmin_powell': _guarded(fminpow_case, 'fmin_powell'),
+         'powell_direc': _guarded(pw_direc_case, 'powell_direc'), 'fmin_powell_direc': _guarded(fminpow_direc_case, 'fmin_powell_direc')}
 
 
 def shard_local(item):
@@ -441,8 +482,10 @@ def shard_local(item):
     T = Tally()
     for tol in TOLS:
         for maxiter in MAXITERS:
-            for what in ('nm', 'nm_adaptive', 'fmin', 'powell', 'fmin_powell'):
+            for what in ('nm', 'nm_adaptive', 'fmin', 'powell', 'fmin_powell', 'powell_direc', 'fmin_powell_direc'):
                 if what == 'nm_adaptive' and (len(x0) == 2 or tol < 1e-4):
+                    continue
+                if what.endswith('_direc') and (tol != 1e-4 or maxiter == 5):     # user-supplied direction sets: one tolerance, maxiter None / 17
                     continue
                 T.count('traces')
                 T.nontriv((what, cname, tuple(x0), tol, maxiter))
@@ -895,8 +938,50 @@ def shard_gen(item):
 
 
 # ===================================================================== driver
+def shard_pool(item):
+    """large populations: what the strategy offers the random source as eligible members.  Every ordered k-subset of the
+    offered pool is a possible answer, so 'distinct other members for every answer' holds iff the pool is exactly the other
+    members, each once (the use made of the answer is judged at the small sizes by shard_trial)."""
+    _, kind, name, NP, cands = item
+    import mystic.strategy as mstrat
+    T = Tally()
+    dim = 2
+    strat = getattr(mstrat, name)
+    pop0 = [[float(i), float(-i)] for i in range(NP)]
+    s = solver_class(kind)(dim, NP)
+    rng = Rng(None, (0.0, 0.999), sample_cap=2)
+    with env.owned_random(rng):
+        for cand in cands:
+            def run(ch):
+                rng.reset(ch)
+                s.population = [list(v) for v in pop0]
+                s.bestSolution = list(pop0[1])
+                s.probability, s.scale = 0.9, 0.8
+                s.trialSolution = [0.0] * dim if kind == 'DE' else [[0.0] * dim for _ in range(NP)]
+                strat(s, cand)
+                return list(rng.calls)
+            for ch, calls in tree.explore(run):
+                T.count('traces'); T.count('transitions', len(ch.trace))
+                for c in calls:
+                    if c[0] != 'sample':
+                        continue
+                    pool = c[2]
+                    T.state((name, NP, cand, len(pool)))
+                    want = [i for i in range(NP) if i != cand]
+                    if sorted(pool) != want:
+                        extra = sorted(set(pool) - set(want)); lost = sorted(set(want) - set(pool))
+                        T.violate({'solver': kind, 'clause': 'members', 'strategy': name, 'case': 'eligible_pool'},
+                                  {'what': 'pool', 'kind': kind, 'name': name, 'NP': NP, 'cand': cand},
+                                  '%s (%s, NP=%d, candidate %d): the members offered to sample() are not exactly the other members '
+                                  '(offered although not eligible: %r; eligible but not offered: %r; duplicates: %d)'
+                                  % (name, kind, NP, cand, extra[:5], lost[:5], len(pool) - len(set(pool))))
+                T.nontriv((kind, name, NP, cand))
+    T.hist('de_pool_cases', '%s NP=%d' % (kind, NP), len(cands))
+    return T
+
+
 def _dispatch(item):
-    return {'local': shard_local, 'trial': shard_trial, 'gen': shard_gen}[item[0]](item)
+    return {'local': shard_local, 'trial': shard_trial, 'gen': shard_gen, 'pool': shard_pool}[item[0]](item)
 
 
 def run(ctx):
@@ -942,6 +1027,13 @@ def run(ctx):
         for name in rde.NAMES:
             for NP, dim in tplan:
                 items.append(('trial', kind, name, NP, dim, crfs))
+    # --- eligible members at population sizes past the small-integer cache (indices compared by value, not identity)
+    pool_np = (258, 300, 1030) if th else (258, 300)
+    for kind in ('DE', 'DE2'):
+        for name in rde.NAMES:
+            for NP in pool_np:
+                cands = list(range(NP)) if NP == 258 else sorted(set(range(0, NP, 37)) | set(range(250, 262)) | {NP - 2, NP - 1})
+                items.append(('pool', kind, name, NP, cands))
     # --- Nelder-Mead and Powell
     for cname in sorted(COSTS):
         for x0 in STARTS[cname] + (STARTS_T[cname] if th else []):
@@ -952,8 +1044,8 @@ def run(ctx):
         items = [it for it in items if it[0] in parts.split(',')]
         ctx.cap('C08_PARTS=%s: only those parts were run' % parts)
     # biggest first
-    order = {'gen': 0, 'trial': 1, 'local': 2}
-    items.sort(key=lambda it: (order[it[0]], -(it[3] if it[0] != 'local' else 0)))
+    order = {'gen': 0, 'trial': 1, 'pool': 1, 'local': 2}
+    items.sort(key=lambda it: (order[it[0]], -(it[3] if it[0] in ('gen', 'trial') else 0)))
     ctx.bounds = {
         'nm_powell': {'costs': sorted(COSTS), 'starts': {k: STARTS[k] + (STARTS_T[k] if th else []) for k in COSTS},
                       'xtol=ftol': list(TOLS), 'maxiter': list(MAXITERS), 'maxfun': None,
@@ -962,6 +1054,8 @@ def run(ctx):
         'de_trial': {'strategies': rde.NAMES, '(NP,dim)': tplan, 'candidate': 'all', '(CR,F)': list(crfs),
                      'solver': ['DE', 'DE2'], 'random()': '{0, CR, 0.999}', 'sample': 'every ordered subset',
                      'randrange': 'every index'},
+        'de_pool': {'strategies': rde.NAMES, 'NP': list(pool_np), 'candidates': 'all for NP=258; every 37th, 250..261 and the last two otherwise',
+                    'judged': 'the list handed to sample() is exactly the other members, each once'},
         'de_generation': {'strategies': rde.NAMES, 'NP_by_members_needed': gen_np,
                           '(NP index, dim, cost)': gplan,
                           '(CR,F)': list(gcrfs) if th else 'one of %r per (solver, strategy), alternating' % (list(gcrfs),),
